@@ -47,6 +47,7 @@ class Spec:
     assumptions: List[str] = field(default_factory=list)
     explanation: str = ""
     min_obligations: int = 1
+    lean: List[str] = field(default_factory=list)  # files under lean/ whose lemmas this property's argument uses
 
 
 @dataclass
@@ -64,6 +65,35 @@ class Ctx:
     def known(self, obligation: str) -> List[Dict[str, Any]]:
         return [f for f in self.findings if f.get("property") == self.prop and f.get("status") == "known"
                 and (f.get("obligation") == obligation or obligation in f.get("obligations", []))]
+
+
+def _lean_status(files: List[str], rerun: bool) -> Dict[str, str]:
+    """quick: compare the sha256 of each Lean file with lean/STATUS.json (written by tools/check_lean.sh); thorough: re-run Lean."""
+    import hashlib
+    import subprocess
+
+    out: Dict[str, str] = {}
+    try:
+        status = json.load(open(os.path.join(ROOT, "lean", "STATUS.json")))
+    except Exception:
+        status = {}
+    for fn in files:
+        path = os.path.join(ROOT, "lean", fn)
+        if not os.path.exists(path):
+            out[fn] = "file missing"
+            continue
+        h = hashlib.sha256(open(path, "rb").read()).hexdigest()
+        if rerun:
+            try:
+                p = subprocess.run(["lean", fn], cwd=os.path.join(ROOT, "lean"), capture_output=True, text=True, timeout=900)
+                ok = p.returncode == 0 and "error" not in (p.stdout + p.stderr).lower() and "sorry" not in (p.stdout + p.stderr).lower()
+                out[fn] = "checked by Lean in this run" if ok else "Lean reported errors: " + (p.stdout + p.stderr)[-200:]
+            except Exception as e:
+                out[fn] = f"Lean could not be run: {type(e).__name__}"
+        else:
+            st = status.get(fn, {})
+            out[fn] = "checked (sha256 matches lean/STATUS.json written by tools/check_lean.sh)" if st.get("ok") and st.get("sha256") == h else "not checked: text differs from the recorded status"
+    return out
 
 
 def load_findings() -> List[Dict[str, Any]]:
@@ -205,11 +235,15 @@ def run_property(prop: str, tier: str = "quick", seed: int = 0) -> int:
     else:
         code = 0
 
+    lean_status = _lean_status(spec.lean, ctx.thorough)
     per_backend: Dict[str, int] = {}
     for r in proved:
         per_backend[r.get("backend", "z3")] = per_backend.get(r.get("backend", "z3"), 0) + 1
     solver_time = round(sum(r.get("time_s", 0) for r in results), 3)
     assumptions = list(dict.fromkeys(spec.assumptions + [a for r in results for a in r.get("assumptions", [])]))
+    for fn, stt in lean_status.items():
+        if not stt.startswith("checked"):
+            assumptions.append(f"Lean lemmas of lean/{fn} assumed, not machine-checked in this run ({stt})")
     samples = [{"obligation": r["name"], "status": r["status"], "backend": r.get("backend"), "time_s": r.get("time_s")} for r in vcs[:6]]
     for b in bounded_out:
         for s in b.get("samples", [])[:2]:
@@ -233,6 +267,7 @@ def run_property(prop: str, tier: str = "quick", seed: int = 0) -> int:
         "obligation_list": [{"name": r["name"], "kind": r["kind"], "status": r["status"], "backend": r.get("backend"),
                              "time_s": r.get("time_s"), "functions": r.get("functions")} for r in results],
         "bounded": bounded_out,
+        "lean_lemmas": lean_status,
         "evaluations": max(1, n_obl + bounded_eval),
         "distinct_nontrivial": max(0, len({r["name"] for r in vcs}) + bounded_distinct),
         "rule": "deductive: one evaluation per generated obligation (distinct by name); bounded stages: see bounded[*].scope, "
